@@ -308,9 +308,47 @@ def r7(ctx, facts):
     c07_r8(ctx, facts)
 
 
+def r8(ctx, facts):
+    r = ctx.rule("R8", "execute always returns: the `nothing finished with a result` case has a value (the empty-plan error), it is never unwrapped", floor=1)
+    b = facts.one(r"^scylla::policies::speculative_execution::execute::\{closure#0\}$")
+    n = 0
+    for bb, c in b.calls():
+        if bb not in b.live_blocks or not c.args:
+            continue
+        nm = (c.name or c.decl or "")
+        last = nm.split("::")[-1]
+        a = c.args[0]
+        if a[0] not in ("c", "m"):
+            continue
+        ty = b.local_ty(a[1][0])
+        if not ("Option<" in ty and "Result<" in ty and "RequestError" in ty and "Option" in nm):
+            continue
+        if last in ("unwrap", "expect", "unwrap_unchecked"):
+            r.instance("last-error-unwrapped:" + last, False,
+                       "`%s` on the optional last error: when every started execution found its plan exhausted (or no plan target "
+                       "existed) nothing was recorded and the call panics instead of returning the empty-plan error" % last, c.span)
+            n += 1
+        elif last in ("unwrap_or", "unwrap_or_else", "unwrap_or_default", "map_or", "map_or_else", "ok_or", "ok_or_else"):
+            r.instance("last-error-defaulted:" + last, True, "", c.span)
+            n += 1
+    if n == 0:
+        # match / if-let form: a switch on the option's discriminant with both arms live
+        from ..util import df_of
+        df = df_of(b, facts)
+        for bb in b.live_blocks:
+            t = b.term(bb)
+            if t[0] == "switch":
+                e = df.expr_of_operand(t[1])
+                if e[0] == "disc" and "Option<" in b.local_ty(e[1][0]) and "RequestError" in b.local_ty(e[1][0]) and "Result<" in b.local_ty(e[1][0]):
+                    r.instance("last-error-matched", True, "", b.term_span(bb))
+                    n += 1
+    if n == 0:
+        raise AnchorLost("execute: no use of the optional last error found")
+
+
 def check(ctx):
     facts = inline_view(ctx.facts("default"))
-    for fn in (r1, r2_r4, r5, r6, r7):
+    for fn in (r1, r2_r4, r5, r6, r7, r8):
         try:
             fn(ctx, facts)
         except AnchorLost as ex:
